@@ -1001,6 +1001,9 @@ def jump_anchors(ast, acc=None):
     return acc
 
 
+SECOND_ORDER = 64.0  # relative uncertainty (in eps*E) assumed for second-order error terms
+
+
 class Val:
     __slots__ = ("v", "E", "d", "DE")
 
@@ -1046,6 +1049,8 @@ class Evaluator:
         E = np.abs(v)
         for c, p in zip(kids, partials):
             E = E + np.abs(p) * c.E
+        if extraE is not None:
+            E = E + extraE
         if self.wrt is None:
             return Val(v, E)
         d = 0.0
@@ -1084,7 +1089,9 @@ class Evaluator:
             return self._comb(a.v - b.v, [a, b], [1.0, -1.0])
         if k == "mul":
             a, b = self.ev(ast[1]), self.ev(ast[2])
-            return self._comb(a.v * b.v, [a, b], [b.v, a.v])
+            # second-order term: matters only where both factors (and so the first-order scale)
+            # vanish, e.g. (0.3333333333333333 - 1/3)*(...)
+            return self._comb(a.v * b.v, [a, b], [b.v, a.v], extraE=SECOND_ORDER * EPS * a.E * b.E)
         if k == "div":
             a, b = self.ev(ast[1]), self.ev(ast[2])
             if np.any(np.abs(b.v) < 0.25):
@@ -1099,7 +1106,15 @@ class Evaluator:
                 return self._comb(np.ones_like(a.v), [a], [np.zeros_like(a.v)])
             v = a.v ** n if n > 0 else 1.0 / a.v ** (-n)
             p = n * (a.v ** (n - 1) if n >= 1 else 1.0 / a.v ** (1 - n))
-            return self._comb(v, [a], [p])
+            extra = None
+            if n >= 2:
+                # higher-order terms of (|a| + delta)**n - |a|**n - n*|a|**(n-1)*delta for a base known
+                # to delta = SECOND_ORDER*eps*E_a: they dominate where the base vanishes
+                # ((0.3333333333333333 - 1/3)**2 is 3e-34 with rationals, 0 in floating point)
+                delta = SECOND_ORDER * EPS * a.E
+                absa = np.abs(a.v)
+                extra = sum(math.comb(n, j) * absa ** (n - j) * delta ** j for j in range(2, n + 1)) / EPS
+            return self._comb(v, [a], [p], extraE=extra)
         if k == "rpow":
             a, b = self.ev(ast[1]), self.ev(ast[2])
             if np.any(a.v < 0.25):
